@@ -47,6 +47,14 @@ def build_source(rng, case, k):
                         raw=bool(case['raw']), geometry=['grid', 'line', 'scatter'][k % 3])
     if case['wm']:
         ds['wmi'] = ds['wmi_eff']
+    # channel maps that do not start at raw channel 0 / have gaps (the sorter dropped channels): the raw
+    # file of random_dense has one spare column; without raw data the declared channel count is free
+    if (k // 4) % 2:
+        if ds.get('raw') is not None:
+            ds['chmap'] = ds['chmap'] + 1
+        else:
+            ds['ncdat'] = nc + int(rng.randint(2, 6))
+            ds['chmap'] = 1 + rng.permutation(ds['ncdat'] - 1)[:nc]
     if kind == 'none':
         ds['sc'] = None
     elif kind == 'same':
@@ -120,7 +128,8 @@ def convert_case(ctx, d, rng, case, k, prop):
     shutil.rmtree(src, ignore_errors=True)
     shutil.rmtree(out, ignore_errors=True)
     tsv = {'cluster_KSLabel.tsv': 'cluster_id\tKSLabel\n0\tgood\n1\tmua\n'} if case['kslabel'] else {}
-    p = D.write_dataset(src, ds, tsv=tsv)
+    # every fifth source stores its vectors as (n, 1) columns, as KiloSort2 / Matlab does
+    p = D.write_dataset(src, ds, tsv=tsv, col1=(k % 5 == 2))
     if case['tempwh']:
         (src / 'temp_wh.dat').write_bytes(b'\x01' * 64)
     if probes is not None:
